@@ -354,8 +354,12 @@ def hilbert_cpu_list(meta, scaling, select, infofile):
     bounding_box = {"xmin": 0, "xmax": 1, "ymin": 0, "ymax": 1, "zmin": 0, "zmax": 1}
     # Make an array of cell centers according to lmax
     box_size = (meta["boxlen"] * scaling).magnitude
-    ncells = 2 ** min(meta["levelmax"], 18)  # limit to 262000 cells
+    probe_level = min(meta["levelmax"], 18)  # limit to 262000 cells
+    ncells = 2**probe_level
     half_dxmin = 0.5 * box_size / ncells
+    # When the finest cells are smaller than the probe cells, the selected interval
+    # can extend up to the neighbouring probe centers: widen the box to reach them.
+    padding = half_dxmin if probe_level == meta["levelmax"] else 2 * half_dxmin
     xyz_centers = Array(
         values=np.linspace(half_dxmin, box_size - half_dxmin, ncells),
         unit=scaling.units,
@@ -367,8 +371,8 @@ def hilbert_cpu_list(meta, scaling, select, infofile):
             new_bbox = True
             func_test = select[key](xyz_centers)
             inds = np.argwhere(func_test.values).ravel()
-            start = xyz_centers[inds.min()] - (half_dxmin * scaling.units)
-            end = xyz_centers[inds.max()] + (half_dxmin * scaling.units)
+            start = xyz_centers[inds.min()] - (padding * scaling.units)
+            end = xyz_centers[inds.max()] + (padding * scaling.units)
             bounding_box["{}min".format(c)] = start._array / box_size
             bounding_box["{}max".format(c)] = end._array / box_size
 
